@@ -163,6 +163,8 @@ def generate(rng, tier):
                 vals = [v for v in vals]
         else:
             vals = gen.gen_values(rng, kind, n, na, "few", 0.3)
+        if kind == "datetime" and fmt in ("pickle", "npz", "parquet", "csv") and rng.random() < 0.3 and all(v is None or 1700 < v.year < 2200 for v in vals):
+            kind = "datetime_ns"       # the same instants held in nanoseconds (what pandas and some readers produce)
         odd = ["a b", "x,y", "col" + str(j)] + ([] if enc in ("latin-1", "cp1252") else ["日本"])
         spec.append((f"c{j}" if rng.random() < 0.8 else rng.choice(odd) + str(j), kind, vals))
     if rng.random() < 0.02 and suffix in ("", ".gz"):
